@@ -410,4 +410,137 @@ Proof.
     - rewrite IH by lia. apply BB2_n_on_closed; [exact Hz|lia]. }
   apply H. lia.
 Qed.
+
+(* --- third loop: Binv by the Woodbury expression --- *)
+(* one row updated cell by cell, each new value a function of the cell's old value *)
+Lemma row_update2 (L : lens2) i K (h : nat -> F -> st -> F) s0 :
+  (forall j x y s, h j x (ls L y s) = h j x s) ->
+  for_range K (fun j s => ls L (upd2 (lg L s) i j (h j (lg L s i j) s)) s) s0
+  = ls L (fun a b => if Nat.eqb a i && Nat.ltb b K then h b (lg L s0 i b) s0 else lg L s0 a b) s0.
+Proof.
+  intros Hh. induction K as [|K IH].
+  - cbn [for_range]. rewrite fill_empty2 by (intros a b; rewrite andb_false_r; reflexivity). rewrite lsg. reflexivity.
+  - cbn [for_range]. rewrite IH, lgs, lss, Hh. rewrite Nat.eqb_refl, Nat.ltb_irrefl. cbn [andb].
+    rewrite (upd2_fill_row (lg L s0) i K (fun b => h b (lg L s0 i b) s0)). reflexivity.
+Qed.
+
+Lemma BB3_j_char n i m s : BB3_j n i m s = set_v_Binv (upd2 (v_Binv s) n m (dif_from (v_Binv s n m) nl (tBi n m s i))) s.
+Proof. unfold BB3_j. apply (acc_cell2 L_Binv (fsub fo) n m nl (fun j s => tBi n m s i j)). reflexivity. Qed.
+Lemma BB3_m_char n i s :
+  BB3_m n i s = set_v_Binv (fun a b => if Nat.eqb a n && Nat.ltb b nt then dif_from (v_Binv s n b) nl (tBi n b s i) else v_Binv s a b) s.
+Proof.
+  unfold BB3_m. rewrite (for_range_ext nt (BB3_j n i) (fun m s => set_v_Binv (upd2 (v_Binv s) n m (dif_from (v_Binv s n m) nl (tBi n m s i))) s))
+    by (intros m s1 _; apply BB3_j_char).
+  apply (row_update2 L_Binv n nt (fun m x s => dif_from x nl (tBi n m s i))). reflexivity.
+Qed.
+Definition Binv_iter (s : st) (n b : nat) (K : nat) (x : F) : F := for_range K (fun i acc => dif_from acc nl (tBi n b s i)) x.
+Lemma BB3_i_sweep n K s :
+  for_range K (BB3_m n) s
+  = set_v_Binv (fun a b => if Nat.eqb a n && Nat.ltb b nt then Binv_iter s n b K (v_Binv s n b) else v_Binv s a b) s.
+Proof.
+  induction K as [|K IH].
+  - cbn [for_range]. replace (fun a b => if Nat.eqb a n && Nat.ltb b nt then Binv_iter s n b 0 (v_Binv s n b) else v_Binv s a b) with (v_Binv s).
+    + destruct s; reflexivity.
+    + extensionality a. extensionality b. destruct (Nat.eqb_spec a n) as [Ha|Ha]; cbn [andb]; [subst a|reflexivity].
+      destruct (b <? nt)%nat; reflexivity.
+  - cbn [for_range]. rewrite IH, BB3_m_char. norm_state. f_equal.
+    extensionality a. extensionality b. rewrite Nat.eqb_refl. cbn [andb].
+    destruct (Nat.eqb_spec a n) as [Ha|Ha]; cbn [andb]; [|reflexivity].
+    destruct (Nat.ltb_spec b nt) as [Hb|Hb]; [|reflexivity].
+    reframe (tBi n b) s. reflexivity.
+Qed.
+Lemma BB3_n_char n s :
+  BB3_n n s = set_v_Binv (fun a b => if Nat.eqb a n && Nat.ltb b nt then Binv_iter s n b nl (if Nat.eqb b n then v_s_ivar s n else v_Binv s n b)
+                                     else if Nat.eqb a n && Nat.eqb b n then v_s_ivar s n else v_Binv s a b) s.
+Proof.
+  unfold BB3_n, BB3_i. cbv zeta. rewrite BB3_i_sweep. norm_state. f_equal.
+  extensionality a. extensionality b. unfold upd2. rewrite Nat.eqb_refl. cbn [andb].
+  destruct (Nat.eqb_spec a n) as [Ha|Ha]; cbn [andb]; [|reflexivity].
+  destruct (Nat.ltb_spec b nt) as [Hb|Hb]; [|reflexivity].
+  unfold Binv_iter. apply for_range_ext. intros i acc _. reframe (tBi n b) s. reflexivity.
+Qed.
+
+Definition BB3_closed (s0 : st) (K : nat) : st :=
+  set_v_Binv (fun a b => if Nat.ltb a K && Nat.ltb b nt then Binv_val s0 a b else v_Binv s0 a b) s0.
+Lemma BB3_n_on_closed s0 K :
+  (forall a b, (a < nt)%nat -> (b < nt)%nat -> v_Binv s0 a b = fz fo 0) -> (K < nt)%nat ->
+  BB3_n K (BB3_closed s0 K) = BB3_closed s0 (S K).
+Proof.
+  intros Hz HK. rewrite BB3_n_char. unfold BB3_closed. norm_state. f_equal.
+  extensionality a. extensionality b. rewrite Nat.ltb_irrefl. cbn [andb]. rows_case a K.
+  destruct (Nat.ltb_spec b nt) as [Hb|Hb].
+  - unfold Binv_val, Binv_iter. rewrite (Nat.eqb_sym b K).
+    destruct (Nat.eqb K b) eqn:E; [|rewrite Hz by lia]; apply for_range_ext; intros i acc _; reframe (tBi K b) s0; reflexivity.
+  - destruct (Nat.eqb_spec b K) as [Hbk|Hbk]; [lia|]. reflexivity.
+Qed.
+Lemma BB3_char s0 :
+  (forall a b, (a < nt)%nat -> (b < nt)%nat -> v_Binv s0 a b = fz fo 0) -> BB3 s0 = BB3_closed s0 nt.
+Proof.
+  intros Hz. unfold BB3. assert (H : forall K, (K <= nt)%nat -> for_range K BB3_n s0 = BB3_closed s0 K).
+  { induction K as [|K IH]; intros HK; cbn [for_range].
+    - unfold BB3_closed. rewrite fill_empty2 by (intros a b; reflexivity). destruct s0; reflexivity.
+    - rewrite IH by lia. apply BB3_n_on_closed; [exact Hz|lia]. }
+  apply H. lia.
+Qed.
+
+(* --- log-determinant accumulation, and make_bBBinv as a whole --- *)
+Lemma BB4_sweep K s :
+  for_range K (fun i s => set_l_log_det_val (fadd fo (l_log_det_val s) (flog fo (fmul fo (fmul fo (fz fo 2) (fpi fo)) (fabs fo (v_Btmp s i i))))) s) s
+  = set_l_log_det_val (fold_from (fadd fo) (l_log_det_val s) K (fun i => flog fo (fmul fo (fmul fo (fz fo 2) (fpi fo)) (fabs fo (v_Btmp s i i))))) s.
+Proof.
+  induction K as [|K IH].
+  - cbn [for_range]. unfold fold_from. cbn [for_range]. destruct s; reflexivity.
+  - cbn [for_range]. rewrite IH. norm_state. rewrite fold_from_S. reflexivity.
+Qed.
+
+(* state after the three loops, in terms of the initial state *)
+Definition bB_closed (s0 : st) : st :=
+  set_v_B (fun a b => if Nat.ltb a nt && Nat.ltb b nt then B_val s0 a b else v_B s0 a b)
+    (set_v_Binv (fun a b => if Nat.ltb a nt && Nat.ltb b nt then Binv_val s0 a b else v_Binv s0 a b)
+       (set_v_Btmp (fun a b => if Nat.ltb a nt && Nat.ltb b nt then B_val s0 a b else v_Btmp s0 a b)
+          (set_v_b (fun a => if Nat.ltb a nt then b_val s0 a else v_b s0 a) (set_l_info 0%Z s0)))).
+
+Lemma chain_bB (X X' Y Y' Z Z' : arr2 F) (W W' : arr1 F) (s : st) :
+  X = X' -> Y = Y' -> Z = Z' -> W = W' ->
+  set_v_B X (set_v_Binv Y (set_v_Btmp Z (set_v_b W s))) = set_v_B X' (set_v_Binv Y' (set_v_Btmp Z' (set_v_b W' s))).
+Proof. intros; subst; reflexivity. Qed.
+
+Lemma bB_loops_char s0 : BB3 (BB2 (BB1 (set_l_info 0%Z s0))) = bB_closed s0.
+Proof.
+  rewrite BB1_char.
+  rewrite BB2_char.
+  2:{ intros a b Ha Hb. unfold BB1_closed. norm_state.
+      replace (a <? nt)%nat with true by (symmetry; apply Nat.ltb_lt; lia).
+      replace (b <? nt)%nat with true by (symmetry; apply Nat.ltb_lt; lia). reflexivity. }
+  rewrite BB3_char.
+  2:{ intros a b Ha Hb. unfold BB2_closed. norm_state.
+      replace (a <? nt)%nat with true by (symmetry; apply Nat.ltb_lt; lia).
+      replace (b <? nt)%nat with true by (symmetry; apply Nat.ltb_lt; lia). reflexivity. }
+  unfold BB3_closed, BB2_closed, BB1_closed, bB_closed. norm_state.
+  apply chain_bB.
+  - extensionality a. extensionality b.
+    destruct (Nat.ltb a nt && Nat.ltb b nt) eqn:E; [|rewrite ?E; reflexivity]. rewrite ?E.
+    unfold B_val. norm_state. reframe (tB a b) s0. reflexivity.
+  - extensionality a. extensionality b.
+    destruct (Nat.ltb a nt && Nat.ltb b nt) eqn:E; [|rewrite ?E; reflexivity]. rewrite ?E.
+    unfold Binv_val. norm_state. apply for_range_ext. intros i acc _. reframe (tBi a b) s0. reflexivity.
+  - extensionality a. extensionality b.
+    destruct (Nat.ltb a nt && Nat.ltb b nt) eqn:E; [|rewrite ?E; reflexivity]. rewrite ?E.
+    unfold B_val. norm_state. reframe (tB a b) s0. reflexivity.
+  - extensionality a. destruct (Nat.ltb a nt) eqn:E; [|norm_state; reflexivity].
+    unfold b_val. reframe (tb a) s0. reflexivity.
+Qed.
+
+Theorem make_bBBinv_char s0 :
+  make_bBBinv fo orc NT NL s0 =
+  let sB := bB_closed s0 in
+  match o_lu orc nt (v_Btmp sB) with
+  | None => (sB, finf fo)
+  | Some Y => (set_l_log_det_val (logdet_val Y) (set_v_Btmp Y sB), logdet_val Y)
+  end.
+Proof.
+  rewrite bBBinv_mirror. unfold make_bBBinv_mirror. rewrite bB_loops_char. cbv zeta.
+  destruct (o_lu orc nt (v_Btmp (bB_closed s0))) as [Y|]; [|reflexivity].
+  unfold BB4. rewrite BB4_sweep. norm_state. reflexivity.
+Qed.
 End Loops.
